@@ -101,4 +101,16 @@ theorem spec_created {cfg : Cfg} {k : Key} {c : Obj} : ∀ {h : List Ev} {s}, sp
       simp only [specStep] at hstep
       split at hstep <;> simp_all
 
+theorem epochIds_mem_append {k : Key} {c : Obj} {mid rest : List Ev}
+    (hmid : ∀ e ∈ mid, ∀ t, e ≠ .clear t) (hc : c ∈ epochIds k rest) : c ∈ epochIds k (mid ++ rest) := by
+  induction mid with
+  | nil => exact hc
+  | cons e mid ih =>
+    have ih' := ih (fun e he => hmid e (List.mem_cons_of_mem _ he))
+    cases e with
+    | clear t => exact absurd rfl (hmid _ List.mem_cons_self t)
+    | hit t k' c' => simp only [List.cons_append, epochIds]; split <;> simp_all
+    | create t k' c' => simp only [List.cons_append, epochIds]; split <;> simp_all
+    | fail t k' c' => simpa [epochIds] using ih'
+
 end Pypyr.CacheTS
